@@ -48,25 +48,71 @@ def _unchanged_after_cancel(p: Path, idx: List[int]) -> bool:
     return False
 
 
+def _mutating(e: Event, muts: Tuple[str, ...]) -> bool:
+    """a call of a book-mutating method, or a loop some iteration of which makes one"""
+    if e.kind == "call":
+        return any(calls_target(e, m) for m in muts)
+    if e.kind == "loop":
+        return any(_mutating(x, muts) for bp in e.paths if bp.exit[0] != "raise" for x in bp.events)
+    return False
+
+
+def _no_mutating_iteration(p: Path, muts: Tuple[str, ...]) -> bool:
+    """every iteration that mutates a book also appends to one local list L, and the path has decided
+    that L is empty afterwards: no such iteration ran"""
+    from ..kit import nf_cmp
+    from ..terms import Unrecognised, cmp_nf
+
+    companions: Optional[set] = None
+    for l in [e for e in p.walk_events(True) if e.kind == "loop"]:
+        for bp in l.paths:
+            if bp.exit[0] == "raise" or not any(x.kind == "call" and _mutating(x, muts) for x in bp.events):
+                continue
+            apps = {x.recv for x in bp.events if x.kind == "call" and x.name == "append" and x.recv is not None and x.recv[0] == "sym"}
+            companions = apps if companions is None else (companions & apps)
+    if not companions:
+        return False
+    for c, pol, _ in p.conds:
+        c = strip_ver(c)
+        for L in companions:
+            ln = ("call", ("name", "len"), (L,), (), None)
+            try:
+                nf = nf_cmp(c if pol else ("not", c), integer=True)
+            except Unrecognised:
+                continue
+            if nf in (cmp_nf("==", ln, ("const", 0), integer=True), cmp_nf("<=", ln, ("const", 0), integer=True)):
+                return True
+    return False
+
+
 @rule("C08.R1", "every book mutation made by a market is followed by a market-price refresh; the last-trade slot is written before it", "T4 must-pass-through", floor=3)
 def r1(ctx: Ctx) -> None:
-    muts = ("OrderBook.add", "OrderBook.cancel", "OrderBook.change_order_volume")
+    from ..kit import is_helper
+
+    muts = ("OrderBook.add", "OrderBook.cancel", "OrderBook.change_order_volume", "OrderBook._remove")
     n = 0
-    for f in ctx.program.cls("Market").methods.values():
+    market_methods = list(ctx.program.cls("Market").methods.values())
+    for f in market_methods:
         ps = normal_paths(ctx.paths(f.qualname))
         hit = False
         bad = 0
         for p in ps:
-            idx = [i for i, e in enumerate(p.events) if e.kind == "call" and any(calls_target(e, m) for m in muts)]
+            idx = [i for i, e in enumerate(p.events) if _mutating(e, muts)]
             if not idx:
                 continue
             hit = True
             ups = [i for i, e in enumerate(p.events) if e.kind == "call" and calls_target(e, UMP)]
             if not ups or max(ups) < max(idx):
-                if _unchanged_after_cancel(p, idx):
+                if _unchanged_after_cancel(p, idx) or _no_mutating_iteration(p, muts):
                     continue
                 bad += 1
         if hit:
+            sites = ctx.cg.sites_calling(f.qualname)
+            if bad and f.name.startswith("_") and is_helper(f) and sites and all(s_.caller in market_methods for s_ in sites):
+                # a private helper of the market: its mutations are part of its callers' paths, where the refresh is looked for
+                ctx.holds(f, f.node, f"{f.qualname}: book mutation is followed by _update_market_price on every normal path", expected="refresh after the last mutation", found="private helper: judged on the paths of its callers " + ", ".join(sorted({s_.caller.qualname for s_ in sites})))
+                n += 1
+                continue
             n += 1
             ctx.check(bad == 0, f, f.node, f"{f.qualname}: book mutation is followed by _update_market_price on every normal path", "refresh after the last mutation", f"{bad} path(s) without a later refresh")
     ctx.require(n >= 3, "fewer than 3 book-mutating Market methods")
@@ -318,6 +364,32 @@ def r5(ctx: Ctx) -> None:
             ctx.check(ok, m, m.node, f"Market.{g} reads its own side's book", f"self.{book}.{meth}()", short(r))
 
 
+def _canon_sums(t: Term) -> Term:
+    """x[0:b] and x[None:b:None] are one slice; 0 + s and s + 0 are s"""
+    t = _strip_epoch(t)
+    if t[0] == "slice":
+        lo, hi, st = t[1], t[2], t[3]
+        if lo is not None and lo == ("const", 0):
+            lo = None
+        if st is not None and st == ("const", 1):
+            st = None
+        return ("slice", _canon_sums(lo) if lo is not None else None, _canon_sums(hi) if hi is not None else None, st)
+    if t[0] == "sub":
+        return ("sub", _canon_sums(t[1]), _canon_sums(t[2]))
+    if t[0] == "call":
+        return ("call", t[1], tuple(_canon_sums(a) for a in t[2]), t[3], None)
+    if t[0] == "bin":
+        l, r = _canon_sums(t[2]), _canon_sums(t[3])
+        if t[1] == "+" and l[0] == "const" and l[1] == 0 and not isinstance(l[1], bool):
+            return r
+        if t[1] in ("+", "-") and r[0] == "const" and r[1] == 0 and not isinstance(r[1], bool):
+            return l
+        return ("bin", t[1], l, r)
+    if t[0] == "cmp":
+        return ("cmp", t[1], _canon_sums(t[2]), _canon_sums(t[3]))
+    return t
+
+
 @rule("C08.R6", "VWAP is turnover over volume, summed over the same slots 0..t, and undefined exactly when that volume is zero", "T7 / T8", floor=2)
 def r6(ctx: Ctx) -> None:
     f = ctx.func("Market.get_vwap")
@@ -332,8 +404,15 @@ def r6(ctx: Ctx) -> None:
         def ssum(series: str) -> str:
             return f"sum(self.{series}[:{key(hi)}:])"
 
-        zero = [pol for c, pol, _ in p.conds if key(_strip_epoch(c)) in (f"(0 == {ssum('_executed_volumes')})", f"({ssum('_executed_volumes')} == 0)")]
-        r = _strip_epoch(p.exit[1])
+        # totals kept in state of the market (running sums, checkpoints) are another representation of the
+        # two series: whether they agree with the series at the moment of the call is not decided here
+        state = sorted({x[2] for t_ in [p.exit[1]] + [c for c, _, _ in p.conds] for x in subterms(strip_ver(t_))
+                        if x[0] == "attr" and x[1] == ("sym", "self") and x[2] not in ("_executed_total_prices", "_executed_volumes", "time", "is_running", "_is_running")})
+        if state:
+            ctx.unrec(f, f.node, "VWAP is computed from the turnover and volume series", f"the value depends on other state of the market ({', '.join('self.' + a for a in state[:3])}): whether that state agrees with the series is not decided", short(p.exit[1]))
+            continue
+        zero = [pol for c, pol, _ in p.conds if key(_canon_sums(c)) in (f"(0 == {ssum('_executed_volumes')})", f"({ssum('_executed_volumes')} == 0)")]
+        r = _canon_sums(p.exit[1])
         if zero and zero[-1]:
             ok = key(r) == "float('nan')"
             ctx.check(ok, f, f.node, "no volume up to t -> undefined", "nan under sum(volumes[:t+1]) == 0", short(r))
